@@ -12,6 +12,16 @@ namespace Teakra {
 class ICU {
 public:
     using IrqBits = std::bitset<16>;
+    void Reset() {
+        std::lock_guard lock(mutex);
+        request.reset();
+        for (auto& e : enabled)
+            e.reset();
+        vectored_enabled.reset();
+        vector_low = {};
+        vector_high = {};
+        vector_context_switch = {};
+    }
     u16 GetRequest() const {
         std::lock_guard lock(mutex);
         return (u16)request.to_ulong();
